@@ -54,6 +54,7 @@ type FuncContract struct {
 	ModifiesGiven bool
 	ModProps      []string
 	LoopInv       map[int][]Clause
+	InlineLoopInv map[string][]Clause // "callee#n": extra invariants for loop n of an inlined callee, in this function only
 	PanicsWhen    []Clause
 	MayPanic      bool
 	Pure          bool
@@ -63,6 +64,7 @@ type FuncContract struct {
 	NoInline      bool
 	AssertAfterStore map[string][]Clause // field (T.f) -> assertions proved after every assignment to it
 	NameMerges    bool // merged heap arrays get a name and a defining equation at every join (see mergeStates)
+	FreshFrames   bool // calls keep the contents of existing objects in components the callee only initialises (see Effects.soft)
 	Allocates     bool
 	Callbacks     map[string]*Callback
 	ParamNames    []string
@@ -418,6 +420,25 @@ func (cs *Contracts) loadFile(path string, pkgName string, commentPrefix bool) e
 						cur.LoopInv[n] = append(cur.LoopInv[n], Clause{Expr: e, Props: props, Text: text, Where: where})
 					}
 				}
+			case "inline-loop":
+				// inline-loop <callee> <n> invariant <expr>: an invariant of loop n of the inlined callee
+				// (short name) that holds in this function's use of it; evaluated over the callee's locals
+				f := strings.Fields(rest)
+				if len(f) < 4 || f[2] != "invariant" {
+					return perr(fmt.Errorf("expected: inline-loop <callee> <n> invariant <expr>"))
+				}
+				if _, err := strconv.Atoi(f[1]); err != nil {
+					return perr(err)
+				}
+				text := strings.TrimSpace(rest[strings.Index(rest, " invariant ")+len(" invariant "):])
+				e, err := parseCE(text)
+				if err != nil {
+					return perr(err)
+				}
+				if cur.InlineLoopInv == nil {
+					cur.InlineLoopInv = map[string][]Clause{}
+				}
+				cur.InlineLoopInv[f[0]+"#"+f[1]] = append(cur.InlineLoopInv[f[0]+"#"+f[1]], Clause{Expr: e, Props: props, Text: text, Where: where})
 			case "ghost":
 				// ghost <name> = <init expr>            declares a ghost variable of the function (Int or Bool)
 				// ghost <name> on <callee> := <expr>    its new value after every call of <callee> (short name);
@@ -474,6 +495,8 @@ func (cs *Contracts) loadFile(path string, pkgName string, commentPrefix bool) e
 				cur.NoInline = true
 			case "merge-names":
 				cur.NameMerges = true
+			case "fresh-frames":
+				cur.FreshFrames = true
 			case "assume-requires":
 				// named assumption: the preconditions of these callees are assumed (not proved) at
 				// their call sites in this function; every use is listed in the evidence ledger
